@@ -13,7 +13,34 @@ import typing as t
 
 import sansldap
 import sansldap.schema as schema
-from sansldap import _messages as M
+
+
+def lib(name: str) -> t.Any:
+    """A name of the library that is not re-exported by the package (PackingOptions, unpack_ldap_message,
+    FilterSyntaxError): looked up in whichever sansldap module defines it, so that moving code between files is harmless."""
+    import importlib
+    import pkgutil
+    import sys
+
+    if hasattr(sansldap, name):
+        return getattr(sansldap, name)
+    for info in pkgutil.iter_modules(sansldap.__path__):
+        try:
+            importlib.import_module(f"sansldap.{info.name}")
+        except Exception:  # noqa: BLE001, S112
+            continue
+    for n, m in sorted(sys.modules.items()):
+        if n.startswith("sansldap.") and hasattr(m, name):
+            return getattr(m, name)
+    raise ImportError(f"sansldap defines no {name}")
+
+
+class _M:
+    def __getattr__(self, name: str) -> t.Any:
+        return lib(name)
+
+
+M = _M()
 
 ENC = "utf-8"
 
